@@ -144,7 +144,10 @@ func sigMatch(entry, got string) bool {
 		return true
 	}
 	ep, gp := strings.Split(entry, "|"), strings.Split(got, "|")
-	if len(ep) < 2 || len(gp) < 2 || ep[0] != gp[0] || ep[1] != gp[1] {
+	if len(ep) < 2 || len(gp) < 2 || ep[1] != gp[1] {
+		return false
+	}
+	if ep[0] != gp[0] && !(strings.HasSuffix(ep[0], "*") && strings.HasPrefix(gp[0], strings.TrimSuffix(ep[0], "*"))) {
 		return false
 	}
 	if len(ep) < 3 || ep[2] == "" {
